@@ -1,7 +1,6 @@
 package main
 
 import (
-	"strconv"
 	"bytes"
 	"fmt"
 	"go/ast"
@@ -10,6 +9,7 @@ import (
 	"go/types"
 	"os"
 	"sort"
+	"strconv"
 	"strings"
 
 	"golang.org/x/tools/go/ssa"
@@ -899,6 +899,7 @@ func (V *Verifier) verifyFunctionOnce(fn *ssa.Function, lockMode bool) *FnResult
 		for _, sa := range c.Sites {
 			sa.Hits = 0
 		}
+		V.resolveSites(fn, c)
 	}
 	// gate ghosts: no permission is held at entry unless the contract requires it
 	for _, gn := range sortedKeys(V.specs.ghosts) {
